@@ -50,7 +50,7 @@ impl Family for C18Family {
         FamilyInfo {
             id: "C18",
             level: "exploration",
-            rule: "twin worlds built from one seeded scenario (same store content and topology, same user-validation plan, same store-fault and cancellation plan, same random byte stream through the RNG hook): world A calls authenticator.op(request), world B calls <Authenticator as Ctap2Api>::op(..). Ops getInfo / makeCredential / getAssertion drawn from the C02-C05 generators (successes and failures, PRF requests, allow/exclude lists), all store topologies, odd indexes with faults. The CBOR serialisation of each pair of results (or the error byte) and the final stores must be identical, and world B must terminate inside the step bound and an 8 MiB stack (crash-isolated worker). Non-trivial = at least one op went through the trait; distinct = distinct (op kinds, outcomes) signature.",
+            rule: "twin worlds built from one seeded scenario (same store content and topology, same user-validation plan, same store-fault and cancellation plan, same random byte stream through the RNG hook): world A calls authenticator.op(request), world B calls <Authenticator as Ctap2Api>::op(..). Ops getInfo / makeCredential / getAssertion drawn from the C02-C05 generators (successes and failures, PRF requests, allow/exclude lists), all store topologies, odd indexes with faults. The CBOR serialisation of each pair of results (or the error byte) and the final stores must be identical, and world B must terminate inside the step bound and an 8 MiB stack (crash-isolated worker). One CTAP-level request in eight carries a client data hash of 0, 16, 31, 33 or 64 bytes. Non-trivial = at least one op went through the trait; distinct = distinct (op kinds, outcomes) signature.",
             assumptions: &["with the same random byte stream ECDSA (RFC 6979) and key generation are deterministic, so equal behaviour means byte-identical responses"],
             real: &["passkey_authenticator::Ctap2Api impl for Authenticator", "Authenticator::{get_info,make_credential,get_assertion}", "lock wrappers", "MemoryStore"],
             stubs: &["executor", "SimStore seam", "SimUser", "seeded RNG behind the hook"],
@@ -167,6 +167,18 @@ impl Family for C18Family {
         if backend == Backend::Ref && r.chance(1, 10) {
             c.store.ignore_ids = true;
         }
+        // a client data hash that is not 32 bytes long, now and then (neither path looks at its length;
+        // round 12, C18r12-A)
+        for op in c.actors[0].ops.iter_mut() {
+            if r.chance(1, 8) {
+                let n = *r.pick(&[0usize, 16, 31, 33, 64]);
+                match &mut op.kind {
+                    OpKind::MakeCredential(s) => s.cdh = r.bytes(n),
+                    OpKind::GetAssertion(s) => s.cdh = r.bytes(n),
+                    _ => {}
+                }
+            }
+        }
         c.twin = Twin::ViaTrait;
         Scenario { family: "C18".into(), batch: if faulty { "faults" } else { "strict" }.into(), seed: master, index, body: Body::Ceremony(c) }
     }
@@ -177,8 +189,15 @@ impl Family for C18Family {
         direct.twin = Twin::None;
         let rec = run_and_measure(&direct, stats);
         let mut j = Judge::new("C18", scn, &rec);
-        for p in ["three_denied_verifications_in_a_row", "capability_changed_between_calls", "get_info_through_trait", "make_credential_through_trait", "get_assertion_through_trait", "failing_op_through_trait", "cancelled_op_through_trait", "zero_length_pin_auth", "configured_transports_in_get_info", "request_above_1024_bytes", "store_that_ignores_the_id_list"] {
+        for p in ["three_denied_verifications_in_a_row", "capability_changed_between_calls", "get_info_through_trait", "make_credential_through_trait", "get_assertion_through_trait", "failing_op_through_trait", "cancelled_op_through_trait", "zero_length_pin_auth", "configured_transports_in_get_info", "request_above_1024_bytes", "store_that_ignores_the_id_list", "client_data_hash_not_32_bytes"] {
             stats.declare_probe(p);
+        }
+        if c.actors[0].ops.iter().any(|o| match &o.kind {
+            OpKind::MakeCredential(s) => s.cdh.len() != 32,
+            OpKind::GetAssertion(s) => s.cdh.len() != 32,
+            _ => false,
+        }) {
+            stats.probe("client_data_hash_not_32_bytes");
         }
         if rec.panic.is_some() || rec.outcome != Outcome2::Done {
             stats.count("runs_not_judged", 1);
